@@ -569,8 +569,8 @@ def c15(prop, tier, seed, work):
     cf = work.path("classes.ndjson")
     vlib.write_programs(cf, classes)
     tf = work.path("rt-trace.ndjson")
-    stores = "mem,dir,memdir,dirro"
-    sample, variants = (3, 1) if quick else (1, 4)
+    stores = "mem,dir" if quick else "mem,dir,memdir,dirro"
+    sample, variants = (1, 1) if quick else (1, 4)
     rc, out, dt = vlib.run([vh, "routing", "-classes", cf, "-o", tf, "-stores", stores, "-seed", str(seed), "-sample", str(sample),
                             "-variants", str(variants)], timeout=3000, env=dict(os.environ, TMPDIR=work.sub("roots")))
     cfg = "SPECIFICATION TraceSpec\nINVARIANT Report\nPOSTCONDITION Consumed\nCHECK_DEADLOCK FALSE\n"
@@ -595,7 +595,7 @@ def c15(prop, tier, seed, work):
            "trace_events": v["stats"]["events"], "trace_events_checked": v["stats"]["checked"],
            "evaluations": v["stats"]["events"], "distinct_nontrivial": len(classes) // sample,
            "rule": "every request class of spec/Routing.tla (full product per endpoint, %d classes: %s) is one TLC state; "
-                   "quick executes every %d-th class (offset by the seed), thorough all, each on mem, dir, mem-over-dir and read-only dir with "
+                   "every %d-th class is executed, quick on mem and dir, thorough on mem, dir, mem-over-dir and read-only dir, with "
                    "%d seeded concretisation(s); a class is non-trivial by construction (it differs from every other in at least one dimension)" % (len(classes), json.dumps(eps), sample, variants),
            "samples": classes[:3] + classes[len(classes) // 2:len(classes) // 2 + 2],
            "exhaustive": not quick, "failures": [f for _, f in violations][:10]}
